@@ -104,6 +104,14 @@ def self_validate(pid, seed=0, jobs=None):
             continue
         meta.append((bid, 'benign', len(jobs_list)))
         jobs_list.append((pid, ov))
+    for patch in sorted(glob.glob(os.path.join(VERIF, 'benign', '*', 'patch.diff'))):
+        bid = 'benign/' + os.path.basename(os.path.dirname(patch))
+        ov = seeded_overrides(patch)
+        if ov is None:
+            meta.append((bid, 'benign', None))
+            continue
+        meta.append((bid, 'benign', len(jobs_list)))
+        jobs_list.append((pid, ov))
     results = []
     if jobs_list:
         with ProcessPoolExecutor(max_workers=jobs or min(16, os.cpu_count() or 4)) as ex:
